@@ -471,6 +471,18 @@ void buildSharedInputs()
     tmp.u = 61;
     prepDec(tmp);
     g_sharedFrames = tmp.frames;
+    // TECMP frames too (a decoder routes them by their first byte), with the status bits 63 / 62 of the timestamp set as an
+    // unsynchronised capture module sends them: the input buffer is the caller's and is read-only to every decoder
+    Arg tt;
+    tt.u = 62;
+    prepTecmp(tt);
+    for (size_t i : {(size_t) 0, (size_t) 5})   // a CAN data frame and the capture-module status frame (the all-interleavings level stays small)
+    {
+        Bytes f = tt.frames[i];
+        if (f.size() > 17)
+            f[16] |= 0xC0;
+        g_sharedFrames.push_back(f);
+    }
 }
 
 void bodyEncShared(int, void* a)
